@@ -2,7 +2,7 @@
    Statements only; proofs in proofs/EvalProofs.v.  The grouping of `and`/`or` is produced by
    the parser: the correspondence check compares it on the implementation's own parser; the
    theorems below give the meaning of the condition tree. *)
-From LV Require Import Base Value Stack Eval EvalProofs.
+From LV Require Import Base Value Stack Eval EvalProofs CondParse CondProofs.
 
 (* a bare value is true unless it is nil or false *)
 Theorem truthiness : forall v, (forall st, v <> VState st) ->
@@ -77,6 +77,30 @@ Example c06_nonvacuous :
   = (ODone, s, mkSink [50%N] None).
 Proof. vm_compute. reflexivity. Qed.
 
+(* ---- how the condition of an if / unless / elsif is read (parse_condition): atoms joined by `and` into
+   groups, groups joined by `or`, both to the left — `x or y and z` is `x or (y and z)` — for every number of
+   groups and atoms; the connective tokens are whatever reads as `and` / `or` / an operator ---- *)
+Theorem condition_is_or_of_ands : forall and_t or_t op_t,
+  t_cls and_t = TAnd -> t_cls or_t = TOr -> (forall o, t_cls (op_t o) = TOp o) ->
+  forall g more, parse_condition (toks_of_cond and_t or_t op_t g more) = Ok (cond_of_cond g more).
+Proof. exact CondProofs.parse_condition_groups. Qed.
+Theorem or_binds_looser_than_and : forall and_t or_t, t_cls and_t = TAnd -> t_cls or_t = TOr -> forall x y z,
+  parse_condition [pv x; or_t; pv y; and_t; pv z] = Ok (COr (CExists x) (CAnd (CExists y) (CExists z))) /\
+  parse_condition [pv x; and_t; pv y; or_t; pv z] = Ok (COr (CAnd (CExists x) (CExists y)) (CExists z)).
+Proof.
+  intros a o Ha Ho x y z. split;
+    [exact (CondProofs.or_and_grouping a o (fun c => mkT None (TOp c)) Ha Ho (fun _ => eq_refl) x y z)
+    |exact (CondProofs.and_or_grouping a o (fun c => mkT None (TOp c)) Ha Ho (fun _ => eq_refl) x y z)].
+Qed.
+(* its meaning: some group all of whose atoms hold *)
+Theorem condition_truth_table : forall O s truth, (forall a, eval_cond O (cond_of_atom a) s = Ok (truth a)) ->
+  forall g more, eval_cond O (cond_of_cond g more) s = Ok (existsb (fun h => truth (fst h) && forallb truth (snd h)) (g :: more)).
+Proof. exact CondProofs.condition_meaning. Qed.
+(* every token sequence is read or rejected: the parser neither runs out of the fuel it gives itself nor reaches
+   the `unreachable!()` of its peeking iterator *)
+Theorem condition_parser_total : forall l, parse_condition l <> OutOfFuel /\ (forall n, parse_condition l <> Panic n).
+Proof. exact CondProofs.parse_condition_total. Qed.
+
 Print Assumptions truthiness.
 Print Assumptions zero_empty_are_true.
 Print Assumptions bare_test.
@@ -88,3 +112,7 @@ Print Assumptions if_first_true.
 Print Assumptions if_error_propagates.
 Print Assumptions unless_is_negation.
 Print Assumptions case_first_equal.
+Print Assumptions condition_is_or_of_ands.
+Print Assumptions or_binds_looser_than_and.
+Print Assumptions condition_truth_table.
+Print Assumptions condition_parser_total.
